@@ -315,6 +315,8 @@ pub struct World {
     pub blocks_sealed: u64,
     /// transactions that passed an admission check on a scratch copy of the state and wait for inclusion
     pub mempool: Vec<Transaction>,
+    /// human-readable log of what was executed (for evidence samples)
+    pub trace: Vec<String>,
 }
 
 /// One 2-thread rayon pool per shard thread, reused by every World created on that thread.
@@ -388,6 +390,7 @@ impl World {
             faucets_seen: vec![],
             blocks_sealed: 0,
             mempool: vec![],
+            trace: vec![],
         }
     }
 
